@@ -193,7 +193,7 @@ BOUNDS = {
                  "one_process": "length <= 5",
                  "depth": "closure (unbounded)"},
 }
-CAP_S = {"quick": 120, "thorough": 1200}
+CAP_S = {"quick": 300, "thorough": 2400}
 MAX_STATES = 400000        # guard against a tree whose state space does not close (a capped unit reports exhaustive: false)
 
 
